@@ -299,17 +299,112 @@ def elementwise(e):
     return None
 
 
+def elementwise_loop(f, name):
+    """
+    the loop spelling of `elementwise`: `name = []` followed by ONE `for T in IT:` loop of f whose body appends to
+    `name` exactly once — (IT, T, appended expression with the loop body's explaining variables read through,
+    has_filter) — has_filter when the append sits under a condition or the loop can `continue` / `break`.
+    None when `name` is not built that way.
+    """
+    import copy
+
+    empties = [
+        n
+        for n in iter_own(f.node)
+        if isinstance(n, (ast.Assign, ast.AnnAssign))
+        and n.value is not None
+        and any(norm(t) == name for t in (n.targets if isinstance(n, ast.Assign) else [n.target]))
+        and (isinstance(n.value, ast.List) and not n.value.elts or isinstance(n.value, ast.Call) and norm(n.value.func) == "list" and not n.value.args)
+    ]
+    if len(empties) != 1:
+        return None
+    appends = [
+        n
+        for n in iter_own(f.node)
+        if isinstance(n, ast.Call) and isinstance(n.func, ast.Attribute) and n.func.attr in ("append",) and norm(n.func.value) == name and len(n.args) == 1
+    ]
+    others = [
+        n
+        for n in iter_own(f.node)
+        if isinstance(n, ast.Call) and isinstance(n.func, ast.Attribute) and n.func.attr in ("extend", "insert", "pop", "remove", "clear") and norm(n.func.value) == name
+    ]
+    if len(appends) != 1 or others:
+        return None
+    app = appends[0]
+    par = f.mod.parents
+    loop, child, conditional = par.get(app), app, False
+    while loop is not None and not isinstance(loop, (ast.For, ast.AsyncFor)):
+        if isinstance(loop, (ast.If, ast.IfExp, ast.Try, ast.While, ast.With)):
+            conditional = conditional or isinstance(loop, (ast.If, ast.IfExp, ast.Try, ast.While))
+        if isinstance(loop, (ast.FunctionDef, ast.AsyncFunctionDef, ast.Lambda)):
+            return None
+        child, loop = loop, par.get(loop)
+    if loop is None or child not in loop.body:
+        return None
+    outer = par.get(loop)
+    while outer is not None and outer is not f.node:
+        if isinstance(outer, (ast.For, ast.AsyncFor, ast.While)):
+            return None  # nested loops: not one element per element
+        outer = par.get(outer)
+    jumps = any(isinstance(x, (ast.Continue, ast.Break, ast.Return)) for st in loop.body for x in ast.walk(st))
+    # explaining variables of the loop body: single plain definitions inside this loop, substituted into the element
+    local = {}
+    counts = {}
+    for st in loop.body:
+        for x in ast.walk(st):
+            if isinstance(x, ast.Assign) and len(x.targets) == 1 and isinstance(x.targets[0], ast.Name):
+                counts[x.targets[0].id] = counts.get(x.targets[0].id, 0) + 1
+                local[x.targets[0].id] = (x, x.value)
+            elif isinstance(x, (ast.AugAssign, ast.NamedExpr)):
+                for nm in stored_names_of(x.target):
+                    counts[nm] = counts.get(nm, 0) + 2
+    # a variable assigned in both arms of one if/else reads as the conditional expression of the two values
+    for st in loop.body:
+        if isinstance(st, ast.If) and len(st.body) == 1 and len(st.orelse) == 1:
+            a_, b_ = st.body[0], st.orelse[0]
+            if isinstance(a_, ast.Assign) and isinstance(b_, ast.Assign) and len(a_.targets) == 1 and len(b_.targets) == 1 and isinstance(a_.targets[0], ast.Name) and norm(a_.targets[0]) == norm(b_.targets[0]) and counts.get(a_.targets[0].id) == 2:
+                local[a_.targets[0].id] = (st, ast.copy_location(ast.IfExp(test=st.test, body=a_.value, orelse=b_.value), st))
+                counts[a_.targets[0].id] = 1
+    single = {k: v[1] for k, v in local.items() if counts.get(k) == 1}
+
+    class Sub(ast.NodeTransformer):
+        def __init__(self, d):
+            self.d = d
+
+        def visit_Name(self, x):
+            if isinstance(x.ctx, ast.Load) and x.id in single and self.d > 0:
+                return Sub(self.d - 1).visit(copy.deepcopy(single[x.id]))
+            return x
+
+    elt = Sub(4).visit(copy.deepcopy(app.args[0]))
+    ast.fix_missing_locations(elt)
+    return loop.iter, loop.target, elt, bool(conditional or jumps)
+
+
+def stored_names_of(t):
+    return [x.id for x in ast.walk(t) if isinstance(x, ast.Name)]
+
+
+def elementwise_local(f, name, defs=None):
+    """every element-wise construction of local `name` of f, in either spelling"""
+    defs = defs if defs is not None else local_defs(f)
+    out = []
+    for d in defs.get(name, []):
+        ew = elementwise(d) if isinstance(d, ast.AST) else None
+        if ew is not None:
+            out.append(ew)
+    lp = elementwise_loop(f, name)
+    if lp is not None:
+        out.append(lp)
+    return out
+
+
 def _align_emit(ctx, index):
     f, xname, yname, fields, joint, ctor = emit_lists(ctx, index)
     defs = local_defs(f)
 
     def source_iterable(name):
-        out = set()
-        for d in defs.get(name, []):
-            ew = elementwise(d)
-            if ew is not None:
-                out.add(norm(ew[0]) + (" [filtered]" if ew[3] else ""))
-        return out
+        return {norm(ew[0]) + (" [filtered]" if ew[3] else "") for ew in elementwise_local(f, name, defs)}
 
     a, d = source_iterable(xname), source_iterable(yname)
     ctx.need(a and d, "the argument list / default list of function.emit are no longer built element-wise from an iterable")
